@@ -24,6 +24,22 @@ import (
 )
 
 const c01Extra = `
+func X_lockstep(a int, s []int) int {
+	t := 0
+	j := int8(0)
+	m := uint16(0)
+	for i := 0; i < a; i++ {
+		t += i + int(j) + int(m)
+		j++
+		m++
+	}
+	n := 0
+	for k := 0; k < a; k++ {
+		n += k
+	}
+	return t + n
+}
+
 func X_twoivs(a, b int, s []int) int {
 	t := 0
 	j := b
